@@ -268,6 +268,21 @@ func (p *pump) RunEvent(time.Time) {
 			} else {
 				ok = p.forward(b, inOrder)
 			}
+		case "reflect":
+			// the receiver gets its own last message back where the answer is expected (a peer, or anyone on
+			// the path, who holds no key at all): correctly signed - as a request
+			var q []byte
+			other := map[string]string{"s2c": "c2s", "c2s": "s2c"}[p.dir]
+			r.K.Lock()
+			if n := len(r.In[other]); n > 0 {
+				q = append([]byte(nil), r.In[other][n-1]...)
+			}
+			r.K.Unlock()
+			if q != nil {
+				ok = p.forward(q, false)
+			} else {
+				ok = p.forward(b, inOrder)
+			}
 		case "id":
 			c := append([]byte(nil), b...)
 			c[1] ^= 1
